@@ -340,8 +340,8 @@ def whitespace_only(ctx):
     n_calls = len([c for c in walk_local(rw.node) if isinstance(c, ast.Call) and dotted(c.func) == 're.sub'])
     ok = bool(pats) and all(isinstance(p, str) and isinstance(r, str) and
                             set(p) <= set(' +\\tnr{}2,^[]') and r in (' ', '\n', '\n\n', '') for p, r in pats)
-    if not pats and n_calls:
-        ctx.undecided('SINK', 'reduce_whitespace only rewrites whitespace', 'substitution patterns do not fold')
+    if not pats:
+        ctx.undecided('SINK', 'reduce_whitespace only rewrites whitespace', 'substitution patterns do not fold / not recognised')
     else:
         ctx.check(ok, 'SINK', 'reduce_whitespace only rewrites whitespace', f"{len(pats)} substitutions",
                   f"reduce_whitespace substitutions {pats} touch non-whitespace", key="SINK|reduce_whitespace")
